@@ -21,6 +21,9 @@ use std::time::{Duration, Instant};
 #[derive(Serialize, Deserialize, Clone, Debug, PartialEq, Eq, Hash)]
 pub enum Edit {
     Xor { file: usize, pos: u32, mask: u8 },
+    /// xor a byte of a CRC-protected block and recompute that block's CRC: what the block CRCs
+    /// cannot see, the pack checksum must (C04 only)
+    XorFixCrc { file: usize, pos: u32, mask: u8, bstart: u32, blen: u32 },
     Zero { file: usize, start: u32, len: u32 },
     Overwrite { file: usize, start: u32, len: u32, seed: u32 },
     Truncate { file: usize, len: u32 },
@@ -57,6 +60,8 @@ pub struct Base {
     pub pristine: BTreeMap<Profile, FDump>,
     /// a different valid container file (for Replace kind 4)
     pub other: Vec<u8>,
+    /// big bases are not swept exhaustively: these (file, start, end) ranges are, the rest is sampled
+    pub targeted: Vec<(usize, u64, u64)>,
 }
 
 #[derive(Clone, Debug)]
@@ -91,13 +96,21 @@ pub fn apply_edits(base: &Base, edits: &[Edit]) -> BTreeMap<usize, Vec<u8>> {
     let mut changed: BTreeMap<usize, Vec<u8>> = BTreeMap::new();
     for e in edits {
         let file = match e {
-            Edit::Xor { file, .. } | Edit::Zero { file, .. } | Edit::Overwrite { file, .. } | Edit::Truncate { file, .. } | Edit::Append { file, .. } | Edit::Replace { file, .. } => *file,
+            Edit::Xor { file, .. } | Edit::XorFixCrc { file, .. } | Edit::Zero { file, .. } | Edit::Overwrite { file, .. } | Edit::Truncate { file, .. } | Edit::Append { file, .. } | Edit::Replace { file, .. } => *file,
         };
         let d = changed.entry(file).or_insert_with(|| base.data[file].clone());
         match e {
             Edit::Xor { pos, mask, .. } => {
                 if (*pos as usize) < d.len() {
                     d[*pos as usize] ^= *mask;
+                }
+            }
+            Edit::XorFixCrc { pos, mask, bstart, blen, .. } => {
+                let (bs, bl) = (*bstart as usize, *blen as usize);
+                if (*pos as usize) < d.len() && bs + bl + 4 <= d.len() {
+                    d[*pos as usize] ^= *mask;
+                    let crc = crate::indep::crc32(&d[bs..bs + bl]);
+                    d[bs + bl..bs + bl + 4].copy_from_slice(&crc.to_be_bytes());
                 }
             }
             Edit::Zero { start, len, .. } => {
@@ -289,8 +302,23 @@ impl Drop for Child {
 // bases
 
 pub fn base_spec(shape: usize, packaging: Packaging, comp: Comp, seed: u32) -> ContainerSpec {
-    let c = |len: u32, ent: Entropy, hint: Hint, k: u32| ContentSpec { len, ent, seed: seed.wrapping_mul(31).wrapping_add(k), hint, source: Source::Mem, dup_of: None };
+    let c = |len: u32, ent: Entropy, hint: Hint, k: u32| ContentSpec { len, ent, seed: seed.wrapping_mul(31).wrapping_add(k), hint, source: Source::Mem, dup_of: None, flip: None };
     let rv = |x: u64, base: u8, cut: u32| RawVal { x, arr: ArrSpec { base, cut, tweak: 0 } };
+    if shape == 2 {
+        // "big tables": more than 1023 contents and clusters of more than 2046 blobs, so that the
+        // content-info table and the cluster tails exceed 4 KiB (the mmap path of the file source)
+        let mut contents = vec![];
+        for i in 0..2100u32 {
+            contents.push(c(1 + i % 2, Entropy::Text, Hint::No, 100 + i));
+        }
+        for i in 0..2100u32 {
+            contents.push(c(1 + i % 3, Entropy::Text, Hint::Yes, 5000 + i));
+        }
+        let mut spec = base_spec(1, packaging, comp, seed);
+        spec.contents = contents;
+        spec.extra_packs.clear();
+        return spec;
+    }
     match shape % 2 {
         0 => ContainerSpec {
             packaging,
@@ -367,7 +395,45 @@ pub fn make_base(name: &str, spec: &ContainerSpec, scratch: &Path, other: Vec<u8
         comp: spec.comp,
         pristine: BTreeMap::new(),
         other,
+        targeted: vec![],
     })
+}
+
+/// For a "big tables" base: read only a sample of the contents, and sweep exactly the bytes that
+/// describe them (their content infos, every cluster pointer, the start and end of every cluster tail).
+pub fn make_big_tables_base(name: &str, spec: &ContainerSpec, scratch: &Path, other: Vec<u8>) -> Result<Base, Failure> {
+    let mut b = make_base(name, spec, scratch, other)?;
+    let n = b.addresses.len();
+    let sample: Vec<usize> = (0..64).map(|k| k * (n - 1) / 63).collect();
+    let mut targeted = vec![];
+    for (fi, m) in b.maps.iter().enumerate() {
+        let Some(m) = m else { continue };
+        for p in &m.packs {
+            if let indep::PackBody::Content(_) = &p.body {
+                let inside = |r: &indep::Region| r.start >= p.start && r.end <= p.start + p.header.size;
+                if let Some(r) = m.regions.iter().find(|r| r.kind == "content/contentinfos" && inside(r)) {
+                    for k in &sample {
+                        let (pid, cid) = b.addresses[*k];
+                        if pid == 1 {
+                            targeted.push((fi, r.start + 4 * cid as u64, r.start + 4 * cid as u64 + 4));
+                        }
+                    }
+                    targeted.push((fi, r.end - 4, r.end));
+                }
+                for r in m.regions.iter().filter(|r| (r.kind == "content/clusterptrs" || r.kind == "content/clustertail") && inside(r)) {
+                    if r.kind == "content/clusterptrs" {
+                        targeted.push((fi, r.start, r.end));
+                    } else {
+                        targeted.push((fi, r.start, (r.start + 48).min(r.end)));
+                        targeted.push((fi, r.end.saturating_sub(8).max(r.start), r.end));
+                    }
+                }
+            }
+        }
+    }
+    b.addresses = sample.iter().map(|k| b.addresses[*k]).collect();
+    b.targeted = targeted;
+    Ok(b)
 }
 
 impl Base {
@@ -642,6 +708,7 @@ pub fn base_from_replay(r: &FaultReplay) -> Base {
         comp: r.comp,
         pristine: BTreeMap::new(),
         other: unhex(&r.other_hex),
+        targeted: vec![],
     }
 }
 
@@ -764,7 +831,10 @@ pub fn check_cmd(id: &str, tier: Tier) -> i32 {
             }
         }
     }
+    // two containers whose tables exceed 4 KiB (different code path of the file source)
     let mut big_specs: Vec<(String, ContainerSpec)> = vec![];
+    big_specs.push(("T-OneFile-none".into(), base_spec(2, Packaging::OneFile, Comp::None, s32)));
+    big_specs.push(("T-TwoFiles-zstd".into(), base_spec(2, Packaging::TwoFiles, Comp::Zstd(3), s32)));
     if tier == Tier::Thorough {
         use proptest::strategy::{Strategy, ValueTree};
         let mut runner = proptest::test_runner::TestRunner::new_with_rng(
@@ -784,7 +854,7 @@ pub fn check_cmd(id: &str, tier: Tier) -> i32 {
             spec.packaging = Packaging::ALL[k % 3];
             // more content so that several clusters of both kinds exist
             for j in 0..30u32 {
-                spec.contents.push(ContentSpec { len: 500 + 97 * j, ent: if j % 2 == 0 { Entropy::Text } else { Entropy::High }, seed: s32 ^ j, hint: if j % 3 == 0 { Hint::No } else { Hint::Yes }, source: Source::Mem, dup_of: None });
+                spec.contents.push(ContentSpec { len: 500 + 97 * j, ent: if j % 2 == 0 { Entropy::Text } else { Entropy::High }, seed: s32 ^ j, hint: if j % 3 == 0 { Hint::No } else { Hint::Yes }, source: Source::Mem, dup_of: None, flip: None });
             }
             big_specs.push((format!("gen{}-{:?}-{}", big_specs.len(), spec.packaging, spec.comp.name()), spec));
         }
@@ -813,7 +883,8 @@ pub fn check_cmd(id: &str, tier: Tier) -> i32 {
     }
     let n_small = bases.len();
     for (name, spec) in &big_specs {
-        match make_base(name, spec, scratch.path(), other.clone()) {
+        let made = if name.starts_with("T-") { make_big_tables_base(name, spec, scratch.path(), other.clone()) } else { make_base(name, spec, scratch.path(), other.clone()) };
+        match made {
             Ok(b) => bases.push(b),
             Err(f) => {
                 // generated specs may hit creation refusals; skip those
@@ -873,17 +944,46 @@ pub fn check_cmd(id: &str, tier: Tier) -> i32 {
     };
     for (bi, base) in runner.bases.iter().enumerate() {
         let small = bi < n_small;
+        // targeted sweeps of big bases (the bytes describing the sampled contents)
+        for (fi, s, e) in &base.targeted {
+            for pos in *s..*e {
+                for m in masks {
+                    let target = if id == "C04" { base.checked_ranges().into_iter().find(|r| r.0 == *fi && pos >= r.2 && pos < r.4).map(|r| (r.0, r.1)) } else { None };
+                    if id == "C04" && target.is_none() {
+                        continue;
+                    }
+                    cases.push((FaultCase { base: bi, edits: vec![Edit::Xor { file: *fi, pos: pos as u32, mask: *m }] }, target));
+                }
+            }
+        }
         match id {
             "C04" => {
                 for (fi, uuid, start, check_pos, end) in base.checked_ranges() {
                     for pos in start..(if small { end } else { start }) {
-                        let _ = check_pos;
                         for m in masks {
                             cases.push((FaultCase { base: bi, edits: vec![Edit::Xor { file: fi, pos: pos as u32, mask: *m }] }, Some((fi, uuid.clone()))));
                         }
                     }
+                    // alterations that the block CRCs cannot see: a byte of a block + that block's CRC recomputed
+                    if let Some(m) = base.maps[fi].as_ref() {
+                        for (bs, bl) in &m.blocks {
+                            // blocks of the checked range only: rewriting the check block into another
+                            // valid check block (kind 0 = "no check") forges the checksum itself, it does
+                            // not alter bytes covered by it (DESIGN 6/C04)
+                            if *bs >= start && bs + bl + 4 <= check_pos {
+                                let step = if small || *bl < 600 { 1 } else { (*bl / 300).max(1) };
+                                let mut pos = *bs;
+                                while pos < bs + bl {
+                                    for mask in [0x01u8, 0x80] {
+                                        cases.push((FaultCase { base: bi, edits: vec![Edit::XorFixCrc { file: fi, pos: pos as u32, mask, bstart: *bs as u32, blen: *bl as u32 }] }, Some((fi, uuid.clone()))));
+                                    }
+                                    pos += step;
+                                }
+                            }
+                        }
+                    }
                     // multi-position and range scripts inside the range
-                    let nmulti = if !small { 1500 } else if tier == Tier::Thorough { 400 } else { 60 };
+                    let nmulti = if !small { if tier == Tier::Thorough { 1500 } else { 200 } } else if tier == Tier::Thorough { 400 } else { 60 };
                     for _ in 0..nmulti {
                         let k = 2 + (next() % 7) as usize;
                         let edits = (0..k)
@@ -907,7 +1007,7 @@ pub fn check_cmd(id: &str, tier: Tier) -> i32 {
                             cases.push((FaultCase { base: bi, edits: vec![Edit::Xor { file: fi, pos: pos as u32, mask: *m }] }, None));
                         }
                     }
-                    let nrange = if !small { 20000 } else if tier == Tier::Thorough { 6000 } else { 500 };
+                    let nrange = if !small { if tier == Tier::Thorough { 20000 } else { 3000 } } else if tier == Tier::Thorough { 6000 } else { 500 };
                     for _ in 0..nrange {
                         // stratified per structure: pick a region, then a position in it
                         let pos = match base.maps[fi].as_ref().filter(|m| !m.regions.is_empty()) {
@@ -938,7 +1038,7 @@ pub fn check_cmd(id: &str, tier: Tier) -> i32 {
                             cases.push((FaultCase { base: bi, edits: vec![Edit::Truncate { file: fi, len: len as u32 }] }, None));
                         }
                     } else {
-                        for _ in 0..3000 {
+                        for _ in 0..(if tier == Tier::Thorough { 3000 } else { 400 }) {
                             cases.push((FaultCase { base: bi, edits: vec![Edit::Truncate { file: fi, len: (next() % d.len().max(1) as u64) as u32 }] }, None));
                         }
                     }
@@ -956,7 +1056,7 @@ pub fn check_cmd(id: &str, tier: Tier) -> i32 {
                     for len in [1u32, 4, 63, 64, 65, 300, 4096] {
                         cases.push((FaultCase { base: bi, edits: vec![Edit::Append { file: fi, len, seed: next() as u32 }] }, None));
                     }
-                    let nrange = if !small { 15000 } else if tier == Tier::Thorough { 4000 } else { 400 };
+                    let nrange = if !small { if tier == Tier::Thorough { 15000 } else { 2500 } } else if tier == Tier::Thorough { 4000 } else { 400 };
                     for _ in 0..nrange {
                         let pos = match base.maps[fi].as_ref().filter(|m| !m.regions.is_empty()) {
                             Some(m) => {
@@ -1000,6 +1100,7 @@ pub fn check_cmd(id: &str, tier: Tier) -> i32 {
             let first = &res.case.edits[0];
             let (efile, epos, ekind) = match first {
                 Edit::Xor { file, pos, .. } => (*file, *pos as u64, "xor"),
+                Edit::XorFixCrc { file, pos, .. } => (*file, *pos as u64, "xor+crc-fixed"),
                 Edit::Zero { file, start, .. } => (*file, *start as u64, "zero"),
                 Edit::Overwrite { file, start, .. } => (*file, *start as u64, "overwrite"),
                 Edit::Truncate { file, len } => (*file, *len as u64, "truncate"),
@@ -1044,8 +1145,27 @@ pub fn check_cmd(id: &str, tier: Tier) -> i32 {
                     if !required {
                         *t.classes.entry("not-required:no-op-or-exempt-bytes-only".into()).or_default() += 1;
                     }
+                    // a re-checksummed header whose uuid changed IS another pack: when it lives in its own
+                    // file the container rightly reports the listed pack as missing (C11) and its check
+                    // covers the packs that are present
+                    let identity_changed_external = match (&res.case.edits[0], &target) {
+                        (Edit::XorFixCrc { file, pos, .. }, Some((tfile, tuuid))) if res.case.edits.len() == 1 && base.files[*file] != base.main => base
+                            .checked_ranges()
+                            .into_iter()
+                            .any(|r| r.0 == *tfile && &r.1 == tuuid && (*pos as u64) >= r.2 + 10 && (*pos as u64) < r.2 + 26),
+                        _ => false,
+                    };
+                    if identity_changed_external {
+                        *t.classes.entry("identity-changed-external-pack".into()).or_default() += 1;
+                    }
                     let f = match (o, &target) {
-                        (Outcome::Value(d), Some((file, uuid))) if required => judge_c04(base, *file, uuid, d),
+                        (Outcome::Value(d), Some((file, uuid))) if required => {
+                            let mut f = judge_c04(base, *file, uuid, d);
+                            if identity_changed_external && f.as_ref().map_or(false, |f| f.sig == "container-check-true-after-alteration") {
+                                f = None;
+                            }
+                            f
+                        }
                         _ => None,
                     };
                     if let Outcome::Value(d) = o {
